@@ -334,6 +334,26 @@ def eval_values(obs, rep, tier, prop):
                 if ev["e"] == "new":
                     startup_new[ev["type"]].append(ev)
             known_ids = {ev["id"] for ev in startup if ev["e"] in ("new", "clone")}
+            # build time (ApplicationState::new): a transient is built once per injection site there too
+            if prop == "C03":
+                lc_of = {}
+                for node in an.nodes:
+                    for op in node.ctor_ops:
+                        lc_of.setdefault(op["c"], set()).add(M.lifecycle(op))
+                sites = collections.defaultdict(list)
+                for ev in startup:
+                    if ev["e"] == "new":
+                        for tag in ev["ins"]:
+                            if lc_of.get(tag["by"]) == {"transient"} and not tag["cloned"] and M.flavour_of(tag["type"]) != "Y":
+                                sites[tag["type"]].append((ev["by"], tag["id"]))
+                for ty, lst in sites.items():
+                    hist[f"startup:transient:{len(lst)}-sites"] += 1
+                    ids = [i for _, i in lst]
+                    if len(ids) != len(set(ids)):
+                        rep.violation(f"{fam}:lifecycle:transient:instance-shared-at-build-time",
+                                      f"{spec['id']}: while the application state was built, two injection sites {[c for c, _ in lst]} received the "
+                                      f"same transient {ty} instance {sorted(ids)}",
+                                      {"oracle": prop, "spec": spec, "startup_trace": st.get("trace")})
             for req, resp in zip(script, run["responses"]):
                 n_req += 1
                 P = M.Pipeline(an, an.routes[req["route"]])
